@@ -75,3 +75,10 @@ package php7
 // token stream the scanner produced; anything Lex added to, removed from or moved between tokens
 // would break them without touching a grammar action.
 //@ trace helper Lex := [] $0.Lexer.Lex(); store &$0.currentToken := result($0.Lexer.Lex()); store &$1.token := result($0.Lexer.Lex()) => result($0.Lexer.Lex()).ID
+
+// C10, slot-terminal table: both grammars store the same terminals in the same token slots of the
+// node kinds they share. Named exceptions (syntax only one family has, or a terminal that reaches
+// the slot through a non-terminal in one grammar and directly in the other):
+//@ gram slot-terminal-only ExprList.OpenBracketTkn '[' : short list syntax `[$a, $b]` as a foreach target is PHP 7.1+ (not shared syntax)
+//@ gram slot-terminal-only ExprList.CloseBracketTkn ']' : short list syntax `[$a, $b]` as a foreach target is PHP 7.1+ (not shared syntax)
+//@ gram slot-terminal-only Identifier.IdentifierTkn T_CLASS : `X::class` - php5 has a dedicated rule taking T_CLASS directly, php7 reaches the same slot through the non-terminal `identifier`
